@@ -260,9 +260,11 @@ Record st := mkSt {
   s_counter : Z;              (* _config_id_counter *)
   s_v2 : bool;                (* protocol version >= 4 (Log._useV2 after refresh_toc) *)
   s_toc : option toc;         (* Log.toc (None until the reset is acknowledged) *)
-  s_link : bool }.            (* cf.link is not None *)
+  s_link : bool;              (* cf.link is not None *)
+  s_rp : bool }.              (* Log._toc_refresh_pending: refresh_toc was called, its reset not yet acknowledged,
+                                 the link not lost since *)
 
-Definition init_st : st := mkSt [] [] 1 false None false.
+Definition init_st : st := mkSt [] [] 1 false None false false.
 
 Definition dummy_cfg : cfg := new_cfg 0.
 Definition get (s : st) (h : nat) : cfg := nth h (s_cfgs s) dummy_cfg.
@@ -276,17 +278,19 @@ Fixpoint upd_nth (l : list cfg) (h : nat) (c : cfg) : list cfg :=
   end.
 
 Definition put (s : st) (h : nat) (c : cfg) : st :=
-  mkSt (upd_nth (s_cfgs s) h c) (s_blocks s) (s_counter s) (s_v2 s) (s_toc s) (s_link s).
+  mkSt (upd_nth (s_cfgs s) h c) (s_blocks s) (s_counter s) (s_v2 s) (s_toc s) (s_link s) (s_rp s).
 Definition set_blocks (s : st) (b : list nat) : st :=
-  mkSt (s_cfgs s) b (s_counter s) (s_v2 s) (s_toc s) (s_link s).
+  mkSt (s_cfgs s) b (s_counter s) (s_v2 s) (s_toc s) (s_link s) (s_rp s).
 Definition set_counter (s : st) (c : Z) : st :=
-  mkSt (s_cfgs s) (s_blocks s) c (s_v2 s) (s_toc s) (s_link s).
+  mkSt (s_cfgs s) (s_blocks s) c (s_v2 s) (s_toc s) (s_link s) (s_rp s).
 Definition set_toc (s : st) (t : option toc) : st :=
-  mkSt (s_cfgs s) (s_blocks s) (s_counter s) (s_v2 s) t (s_link s).
+  mkSt (s_cfgs s) (s_blocks s) (s_counter s) (s_v2 s) t (s_link s) (s_rp s).
 Definition set_link (s : st) (l : bool) : st :=
-  mkSt (s_cfgs s) (s_blocks s) (s_counter s) (s_v2 s) (s_toc s) l.
+  mkSt (s_cfgs s) (s_blocks s) (s_counter s) (s_v2 s) (s_toc s) l (s_rp s).
+Definition set_rp (s : st) (r : bool) : st :=
+  mkSt (s_cfgs s) (s_blocks s) (s_counter s) (s_v2 s) (s_toc s) (s_link s) r.
 Definition set_v2 (s : st) (v : bool) : st :=
-  mkSt (s_cfgs s) (s_blocks s) (s_counter s) v (s_toc s) (s_link s).
+  mkSt (s_cfgs s) (s_blocks s) (s_counter s) v (s_toc s) (s_link s) (s_rp s).
 
 Definition step_result : Type := st * list obs * option exn.
 
@@ -437,12 +441,12 @@ Definition on_settings (s : st) (cmd id status : Z) : step_result :=
       end
     else (s, [], None)
   else if cmd =? g_cmd_reset then
-    match s_toc s with
+    match (if s_rp s then s_toc s else Some []) with      (* not self.toc and self._toc_refresh_pending *)
     | None =>
         (* log_blocks = []; toc = Toc(); TocFetcher(...).start() asks for the TOC info *)
         let ti := if s_v2 s then g_toc_info_v2 else g_toc_info in
         let '(s1, o1) := forget_blocks s (s_blocks s) in
-        (set_toc (set_blocks s1 []) (Some []), o1 ++ [OWire 5 g_chan_toc [ti] [ti]], None)
+        (set_rp (set_toc (set_blocks s1 []) (Some [])) false, o1 ++ [OWire 5 g_chan_toc [ti] [ti]], None)
     | Some _ => (s, [], None)
     end
   else (s, [], None).
@@ -496,7 +500,7 @@ Definition add_outcome_exn (a : add_outcome) : option exn :=
 Definition step (s : st) (e : ev) : step_result :=
   match e with
   | ENew num den =>
-      (mkSt (s_cfgs s ++ [new_cfg_p (fperiod num den)]) (s_blocks s) (s_counter s) (s_v2 s) (s_toc s) (s_link s), [], None)
+      (mkSt (s_cfgs s ++ [new_cfg_p (fperiod num den)]) (s_blocks s) (s_counter s) (s_v2 s) (s_toc s) (s_link s) (s_rp s), [], None)
   | EAddVar h n ty =>
       if negb (valid_h s h) then (s, [], None)
       else
@@ -517,9 +521,9 @@ Definition step (s : st) (e : ev) : step_result :=
   | EStop h => if negb (valid_h s h) then (s, [], None) else stop_or_delete g_cmd_stop s h
   | EDelete h => if negb (valid_h s h) then (s, [], None) else stop_or_delete g_cmd_delete s h
   | EPacket chan data => on_packet s chan data
-  | ELinkDown => (set_link s false, [], None)
+  | ELinkDown => (set_rp (set_link s false) false, [], None)       (* cf.disconnected fires: Log._disconnected *)
   | ERefresh v2 =>
-      (set_toc (set_v2 (set_link s true) v2) None,
+      (set_rp (set_toc (set_v2 (set_link s true) v2) None) true,
        [OWire 5 g_chan_settings [g_cmd_reset] [g_cmd_reset]], None)
   | ESetToc tc => (set_toc s (Some tc), [], None)
   end.
